@@ -64,9 +64,9 @@ func NewIndexKVStore(family kv.Family, cacheSize int, cacheTTL time.Duration) In
 		family:   family,
 		snapshot: family.GetSnapshot(),
 		mutable:  imap.NewIntMap[map[string]uint32](),
-		bucketCache: expirable.NewLRU(cacheSize, func(_ uint32, value *model.TrieBucket) {
-			value.Release()
-		}, cacheTTL),
+		// NOTE: cannot release(put tries back to pool) the bucket when it is evicted/purged from cache,
+		// because lookups which got it from the cache before may still read it.
+		bucketCache: expirable.NewLRU[uint32, *model.TrieBucket](cacheSize, nil, cacheTTL),
 	}
 }
 
